@@ -192,7 +192,6 @@ def _needs_fix(m):
 
 class P:
     __slots__ = ("t", "_key", "_hash")
-    __array_priority__ = 1000
 
     def __init__(self, terms=None):
         self.t = terms if terms is not None else {}
@@ -613,8 +612,35 @@ def is_pos(p, strict=True):
 def is_nonneg(p):
     if is_pos(p, strict=False):
         return True
+    if _is_modsq(p):
+        return True
     q = clear_inv(p, positive_only=True)
-    return q is not None and is_pos(q, strict=False)
+    return q is not None and (is_pos(q, strict=False) or _is_modsq(q))
+
+
+def _is_modsq(p):
+    """p == |c + t|^2 for a rational c and one of its own terms t (certificate checked by multiplication)."""
+    if not (3 <= len(p.t) <= 4) or () not in p.t:
+        return False
+    c0 = p.t[()]
+    if c0 <= 0:
+        return False
+    cf = Fr(c0)
+    rn, rd = math.isqrt(cf.numerator), math.isqrt(cf.denominator)
+    if rn * rn != cf.numerator or rd * rd != cf.denominator:
+        return False
+    c = P.const(Fr(rn, rd))
+    for m, k in p.t.items():
+        if not m:
+            continue
+        for sgn in (1, -1):
+            w = c + P({m: _norm_c(Fr(k) * sgn / (Fr(rn, rd)))})
+            try:
+                if (w * conj(w) - p).is_zero_nf():
+                    return True
+            except Unmodelled:
+                return False
+    return False
 
 
 def inv(p):
